@@ -36,6 +36,7 @@ def show(v):
 
 
 def check(prog, run):
+    prime_layouts(prog)
     I = prog.I
     run.explanation = ("polynomial dataflow: every constructor is abstractly interpreted with symbolic sizes; the expression "
                        "that sizes cmd.datain / cmd.dataout (and every later store to them) is compared, as a polynomial over "
@@ -66,8 +67,8 @@ def check(prog, run):
                 continue  # constructibility is C01/C05/C17
             ncons += 1
             inst = con.inst
-            dout = inst.attrs.get("_dataout")
-            din = inst.attrs.get("_datain")
+            dout = con.pub.get("dataout")
+            din = con.pub.get("datain")
             case = con.label()
             cname = "%s %s" % (short, rule[0])
             bad = False
@@ -174,12 +175,19 @@ def ata_expected(a, con, I):
 
 # ---------------------------------------------------------------------------
 def marker_cmd(prog, out_len, in_len):
+    """a command object as its own constructor leaves it, carrying marker buffers (stored through its own setters)"""
     sc = prog.cls(CMD_MOD, "SCSICommand")
-    cmd = Instance(sc)
+    op = prog.module("pyscsi.pyscsi.scsi_enum_command").env["spc"].members["TEST_UNIT_READY"]
+    try:
+        cmd = prog.I.instantiate(sc, [op, 0, 0], {}, None, _F("scenario command"))
+    except PyRaise as e:
+        raise AnalysisError("anchor-missing", "SCSICommand(opcode, 0, 0) cannot be constructed: %s" % e.describe())
     cdb = Buf(cells=[0] * 6)
     dout = Buf(cells=[0] * out_len) if isinstance(out_len, int) else Buf(cells=None, length=out_len)
     din = Buf(cells=[0] * in_len) if isinstance(in_len, int) else Buf(cells=None, length=in_len)
-    cmd.attrs.update({"_cdb": cdb, "_dataout": dout, "_datain": din, "_sense": None, "_raw_sense_data": None})
+    # (stored through the class's own setters: where the class keeps them is its business)
+    for n, v in (("cdb", cdb), ("dataout", dout), ("datain", din), ("sense", None), ("raw_sense_data", None)):
+        set_pub(prog.I, cmd, n, v)
     return cmd, cdb, dout, din
 
 
@@ -191,21 +199,205 @@ def _next_id():
     return _counter[0]
 
 
+# ---------------------------------------------------------------------------
+# device / facade objects for the transport scenarios.  Where a class keeps its handle, its flags, the recorded node
+# identity ... is private to it: the attribute names (and the shape of the recorded identity) are *discovered* by abstractly
+# running the class's own constructor / setters once over the stand-in bindings, and the scenario objects are built with
+# that layout.  A class that keeps no such state at all is an analysis error (anchor-missing), never a silent pass.
+def _not_while_exploring(prog):
+    if prog.I.exploring:
+        raise AnalysisError("internal-error", "object layouts must be discovered (prime_layouts) before a scenario is explored")
+
+
+def prime_layouts(prog):
+    scsi_layout(prog)
+    iscsi_layout(prog)
+    facade_layout(prog)
+
+
+def _contains_stat(v):
+    if isinstance(v, External):
+        return v.name.startswith("stat#")
+    if isinstance(v, (tuple, list)):
+        return any(_contains_stat(x) for x in v)
+    if isinstance(v, Unknown):
+        return any(_contains_stat(x) for x in v.deps)
+    return False
+
+
+def _one_attr(attrs, pred, what, cls):
+    names = [k for k, v in attrs.items() if pred(v)]
+    if len(names) != 1:
+        raise AnalysisError("anchor-missing", "%s: cannot tell where the object keeps %s (candidates %s)" % (cls, what, names))
+    return names[0]
+
+
+def _setter_slot(prog, cls, prop):
+    """the attribute the public property ``prop`` stores into"""
+    I = prog.I
+    mark = External("layout-probe-" + prop)
+    got = {}
+
+    def t():
+        o = Instance(cls)
+        I.set_attr(o, prop, mark, None, _F("layout probe"))
+        got.update(o.attrs)
+        return o
+    ps = [p for p in I.explore(t, max_paths=64) if p.returned]
+    ps = [p for p in ps if any(v is mark for v in p.value.attrs.values())] or ps        # (a setter may store conditionally)
+    if not ps:
+        raise AnalysisError("anchor-missing", "%s.%s cannot be assigned" % (cls.name, prop))
+    return _one_attr(ps[0].value.attrs, lambda v: v is mark, "the value assigned to .%s" % prop, cls.name)
+
+
+def scsi_layout(prog):
+    L = getattr(prog, "_scsi_layout", None)
+    if L is not None:
+        return L
+    _not_while_exploring(prog)
+    from ..standin import StandIn
+    I = prog.I
+    cls = prog.cls("pyscsi.pyscsi.scsi_device", "SCSIDevice")
+    runs = []
+    path = "/dev/sg0"
+    for rw, det, buf in ((True, False, 7), (False, True, 9)):
+        si = StandIn(prog).install()
+        try:
+            ps = [p for p in I.explore(lambda: I.instantiate(cls, [path], {"readwrite": rw, "detect_replugged": det, "buffering": buf},
+                                                             None, _F("layout probe")), max_paths=8) if p.returned]
+        finally:
+            si.remove()
+        if not ps or not isinstance(ps[0].value, Instance):
+            raise AnalysisError("anchor-missing", "SCSIDevice(device, readwrite, detect_replugged, buffering) cannot be constructed over the stand-in")
+        runs.append(dict(ps[0].value.attrs))
+    A, B = runs
+    L = {"file_name": _one_attr(B, lambda v: v is path or v == path, "the device path", "SCSIDevice"),
+         "handle": _one_attr(B, lambda v: isinstance(v, External) and v.name.startswith("file-handle"), "the open handle", "SCSIDevice"),
+         # (a class that records nothing about the node it opened has no such slot: C15 reports that, the other checks
+         # do not need it)
+         "ident": ([k for k, v in B.items() if _contains_stat(v)] + [None])[0],
+         "opcodes": _one_attr(B, lambda v: isinstance(v, EnumVal), "the command-set table", "SCSIDevice")}
+    for role, a, b in (("read_write", True, False), ("detect", False, True), ("buffering", 7, 9)):
+        names = [k for k in B if k in A and A[k] is a and B[k] is b] if role != "buffering" else [k for k in B if A.get(k) == a and B[k] == b and not isinstance(B[k], bool)]
+        if len(names) != 1:
+            raise AnalysisError("anchor-missing", "SCSIDevice: cannot tell where the %s argument is kept (candidates %s)" % (role, names))
+        L[role] = names[0]
+    L["ident_shape"] = B.get(L["ident"])
+    if len([k for k, v in B.items() if _contains_stat(v)]) > 1:
+        raise AnalysisError("anchor-missing", "SCSIDevice keeps the identity of the node it opened in more than one place")
+    L["devicetype"] = _setter_slot(prog, cls, "devicetype")
+    L["others"] = {k: v for k, v in B.items() if k not in L.values()}
+    prog._scsi_layout = L
+    return L
+
+
+def iscsi_layout(prog):
+    L = getattr(prog, "_iscsi_layout", None)
+    if L is not None:
+        return L
+    _not_while_exploring(prog)
+    from ..standin import StandIn
+    I = prog.I
+    cls = prog.cls("pyscsi.pyiscsi.iscsi_device", "ISCSIDevice")
+    url, ini = "iscsi://host/iqn.2000-01.t:x/0", "iqn.2000-01.initiator"
+    si = StandIn(prog).install()
+    try:
+        ps = [p for p in I.explore(lambda: I.instantiate(cls, [url], {"initiator_name": ini}, None, _F("layout probe")), max_paths=8) if p.returned]
+    finally:
+        si.remove()
+    if not ps or not isinstance(ps[0].value, Instance):
+        raise AnalysisError("anchor-missing", "ISCSIDevice(device, initiator_name) cannot be constructed over the stand-in")
+    B = dict(ps[0].value.attrs)
+    L = {"file_name": _one_attr(B, lambda v: v is url or v == url, "the URL", "ISCSIDevice"),
+         "ctx": _one_attr(B, lambda v: isinstance(v, External) and v.name == "iscsi.Context()", "the iSCSI context", "ISCSIDevice"),
+         "url": _one_attr(B, lambda v: isinstance(v, External) and v.name == "iscsi.URL()", "the parsed URL", "ISCSIDevice"),
+         "initiator_name": _one_attr(B, lambda v: v is ini or v == ini, "the initiator name", "ISCSIDevice"),
+         "opcodes": _one_attr(B, lambda v: isinstance(v, EnumVal), "the command-set table", "ISCSIDevice")}
+    L["devicetype"] = _setter_slot(prog, cls, "devicetype")
+    L["others"] = {k: v for k, v in B.items() if k not in L.values()}
+    prog._iscsi_layout = L
+    return L
+
+
+def facade_layout(prog):
+    L = getattr(prog, "_facade_layout", None)
+    if L is None:
+        _not_while_exploring(prog)
+        L = prog._facade_layout = {"blocksize": _setter_slot(prog, prog.cls("pyscsi.pyscsi.scsi", "SCSI"), "blocksize")}
+    return L
+
+
+def _layout_of(prog, obj):
+    n = obj.cls.name if isinstance(obj, Instance) else None
+    for c in (obj.cls.mro() if isinstance(obj, Instance) else ()):
+        if c.name == "SCSIDevice":
+            return scsi_layout(prog)
+        if c.name == "ISCSIDevice":
+            return iscsi_layout(prog)
+        if c.name == "SCSI":
+            return facade_layout(prog)
+    raise AnalysisError("internal-error", "no layout for %r" % (n,))
+
+
+def slot(prog, obj, role):
+    """what the object keeps in the given role (handle, ident, opcodes, file_name, detect ...)"""
+    name = _layout_of(prog, obj)[role]
+    return obj.attrs.get(name) if name is not None else None
+
+
+def put(prog, obj, role, value):
+    name = _layout_of(prog, obj)[role]
+    if name is not None:
+        obj.attrs[name] = value
+
+
+def _recorded(shape):
+    """the recorded node identity: the shape the class itself records, every leaf a marker of an earlier stat"""
+    if isinstance(shape, External):
+        field = shape.name.split(".")[-1] if "." in shape.name else "value"
+        r = External("recorded-ino" if field == "st_ino" else "recorded-" + field)
+        r.stat_field = field
+        return r
+    if isinstance(shape, tuple):
+        return tuple(_recorded(x) for x in shape)
+    if isinstance(shape, list):
+        return [_recorded(x) for x in shape]
+    return Unknown("node identity recorded at open() (computed from the stat result)")
+
+
+def ident_leaves(v):
+    if isinstance(v, External):
+        return [v]
+    if isinstance(v, Unknown):
+        return [l for x in v.deps for l in ident_leaves(x)]
+    if isinstance(v, (tuple, list)):
+        return [l for x in v for l in ident_leaves(x)]
+    return []
+
+
 def make_scsi_device(prog):
+    L = scsi_layout(prog)
     cls = prog.cls("pyscsi.pyscsi.scsi_device", "SCSIDevice")
     dev = Instance(cls)
-    dev.attrs.update({"_file_name": SymStr("devname"), "_read_write": False, "_file": External("file-handle@%d" % _next_id()),
-                      "_ino": External("recorded-ino"), "_detect_replugged": False, "_buffering": -1,
+    dev.attrs.update(L["others"])
+    dev.attrs.update({L["file_name"]: SymStr("devname"), L["read_write"]: False, L["handle"]: External("file-handle@%d" % _next_id()),
+                      L["detect"]: False, L["buffering"]: -1,
+                      L["opcodes"]: L["others"].get(L["opcodes"], prog.module("pyscsi.pyscsi.scsi_enum_command").env["spc"]),
                       # whatever an earlier attach stored on the device (any peripheral device type)
-                      "_devicetype": Sym.param("devicetype", 5)})
+                      L["devicetype"]: Sym.param("devicetype", 5)})
+    if L["ident"] is not None:
+        dev.attrs[L["ident"]] = _recorded(L["ident_shape"])
     return dev
 
 
 def make_iscsi_device(prog):
+    L = iscsi_layout(prog)
     cls = prog.cls("pyscsi.pyiscsi.iscsi_device", "ISCSIDevice")
     dev = Instance(cls)
-    dev.attrs.update({"_file_name": SymStr("url"), "_iscsi": External("ctx"), "_iscsi_url": External("url"),
-                      "_initiator_name": SymStr("iname"), "_devicetype": Sym.param("devicetype", 5)})
+    dev.attrs.update(L["others"])
+    dev.attrs.update({L["file_name"]: SymStr("url"), L["ctx"]: External("ctx"), L["url"]: External("url"),
+                      L["initiator_name"]: SymStr("iname"), L["devicetype"]: Sym.param("devicetype", 5),
+                      L["opcodes"]: prog.module("pyscsi.pyscsi.scsi_enum_command").env["spc"]})
     return dev
 
 
@@ -238,8 +430,8 @@ def check_transports(prog, run):
             pass
         calls = [e for e in I.events if e["kind"] == "external-call" and e["name"] == "sgio.execute"]
         results.append((calls, cdb, dout, din, dev))
-        after.append((list(cdb.cells) if cdb.cells is not None else None, cmd.attrs.get("_cdb") is cdb, cmd.attrs.get("_dataout") is dout,
-                      cmd.attrs.get("_datain") is din))
+        after.append((list(cdb.cells) if cdb.cells is not None else None, pub_attr(I, cmd, "cdb") is cdb, pub_attr(I, cmd, "dataout") is dout,
+                      pub_attr(I, cmd, "datain") is din))
         return None
     after = []
     I.explore(t2, max_paths=64)
@@ -255,7 +447,7 @@ def check_transports(prog, run):
         for c in calls:
             n_calls += 1
             a = c["args"]
-            good = len(a) == 4 and a[0] is dev.attrs["_file"] and a[1] is cdb and a[2] is dout and a[3] is din and not c["kwargs"]
+            good = len(a) == 4 and a[0] is slot(prog, dev, "handle") and a[1] is cdb and a[2] is dout and a[3] is din and not c["kwargs"]
             if good:
                 run.ok("transport-passes-buffers", "SCSIDevice.execute sgio.execute", {"args": "file, cmd.cdb, cmd.dataout, cmd.datain"})
             else:
@@ -284,8 +476,8 @@ def check_transports(prog, run):
             except PyRaise:
                 pass
             res2.append(([e for e in I.events if e["kind"] == "external-call"], cdb, dout, din))
-            after2.append((label, list(cdb.cells) if cdb.cells is not None else None, cmd.attrs.get("_cdb") is cdb,
-                           cmd.attrs.get("_dataout") is dout, cmd.attrs.get("_datain") is din))
+            after2.append((label, list(cdb.cells) if cdb.cells is not None else None, pub_attr(I, cmd, "cdb") is cdb,
+                           pub_attr(I, cmd, "dataout") is dout, pub_attr(I, cmd, "datain") is din))
             return None
         I.explore(t3, max_paths=128)
         if not res2:
